@@ -631,8 +631,103 @@ def run_race(ctx):
     ctx.set(race_delay_bound=bound)
 
 
+# ------------------------------------------------------------------------------
+# (e) the agent's work loop thread leaves its loop when the component's
+#     termination flag is set and then runs finalize(), which turns the
+#     recorded cause into the pilot's final state; the cause is recorded by
+#     other threads (control subscriber: cancel / terminate; idler: run time
+#     reached).  Engine B: every schedule of {work loop, cause} within the
+#     delay bound ends with the state the cause stands for.
+#
+def _stop_job(args):
+    from rpmc import report, clientrace, sched as rs
+    from radical.pilot.utils.component import BaseComponent
+    cause, bound, scratch = args
+    part  = report.Part()
+    clock = AgentTime()
+    wd    = os.path.join(scratch, 'agent.%d' % os.getpid())
+    os.makedirs(wd, exist_ok=True)
+    expect = {'life_late': rps.DONE, 'cancel_me': rps.CANCELED,
+              'terminate': rps.CANCELED, 'stop': rps.CANCELED}[cause]
+
+    def make_world(s):
+        for f in os.listdir(wd):
+            os.unlink(os.path.join(wd, f))
+        a, n = make_agent(scratch)
+        a._term = rs.CEvent(s)
+        a._starttime = clock.now = 1000.0
+        a.net = n
+        return a
+
+    def bodies(a):
+        def loop():
+            # BaseComponent._work_loop without the work itself
+            s_ = a._term.sched
+            while not a._term.is_set():
+                pass
+            a._finalize()
+
+        def stopper():
+            if cause == 'life_late':
+                clock.now = a._starttime + 10 * 60 + 1
+                a._check_lifetime()
+            elif cause == 'cancel_me':
+                a._control_cb(rpc.CONTROL_PUBSUB, seams.wire(
+                    {'cmd': 'cancel_pilots',
+                     'arg': {'pmgr': 'pmgr.0000', 'uids': ['pilot.0000']}}))
+            elif cause == 'terminate':
+                a._control_cb(rpc.CONTROL_PUBSUB, seams.wire(
+                    {'cmd': 'terminate', 'arg': None}))
+            else:
+                a.stop()
+        return [('work-loop', loop, True), ('stopper', stopper)]
+
+    replay = {'part': 'e', 'cause': cause}
+
+    def judge(a, s, res):
+        try:
+            with open(os.path.join(wd, 'killme.signal')) as fin:
+                written = fin.read().strip()
+        except Exception as e:
+            written = repr(e)
+        if res != 'done' or written != expect:
+            part.violation('final-cause-race|Agent_0.stop|%s' % cause,
+                           {'what': 'cause %s: the work loop wrote %s, '
+                                    'expected %s (%s; stuck %s)'
+                                    % (cause, written, expect, res, s.stuck)},
+                           dict(replay, schedule=list(s.choices)))
+        part.outcome(('stop-race', cause, written))
+
+    old_time, cwd = a0mod.time, os.getcwd()
+    a0mod.time = clock
+    os.chdir(wd)
+    try:
+        n, capped = clientrace.explore(
+            make_world, bodies,
+            [a0mod.Agent_0.stop, a0mod.Agent_0.finalize,
+             a0mod.Agent_0._check_lifetime, a0mod.Agent_0._ctrl_cancel_pilots
+             if hasattr(a0mod.Agent_0, '_ctrl_cancel_pilots')
+             else a0mod.Agent_0.stop,
+             BaseComponent.stop, BaseComponent._finalize], bound, judge)
+    finally:
+        a0mod.time = old_time
+        os.chdir(cwd)
+    part.cover(executions=n, stop_race_cases=1,
+               traces_validated_against_impl=n)
+    return part.dump()
+
+
+def run_stop_race(ctx):
+    bound = 1 if ctx.quick else 2
+    jobs  = [(c, bound, ctx.scratch)
+             for c in ('life_late', 'cancel_me', 'terminate', 'stop')]
+    for res in seams.pmap(_stop_job, jobs, ctx.workers):
+        ctx.merge(res)
+
+
 def run(ctx):
     ctx.level = 'model_checking'
+    run_stop_race(ctx)
     run_client(ctx)
     run_tmgr_view(ctx)
     run_agent(ctx)
@@ -659,6 +754,11 @@ def replay(ctx, data):
         print('before', w.p1.state)
         print('exc', repr(w.apply(batch)))
         print('after', w.p1.state, 'announced', w.log_pm)
+    elif r['part'] == 'e':
+        res = _stop_job((r['cause'], 2, ctx.scratch))
+        for key, detail, _ in res['violations']:
+            print('VIOLATED', key, detail['what'])
+        return 1 if res['violations'] else 0
     elif r['part'] == 'd':
         res = _race_job((r['start'], r['a'], r['b'], r['via'], 2))
         print('race', r, )
